@@ -640,8 +640,18 @@ pub fn judge(case: &Case, keep_modules: bool) -> Result<Judged, String> {
                         // fewer firings than the fall-through executions alone account for: the copy
                         // behind the branch is lost, which no label-side defect explains
                         let nt = nt_gaps.get(gi).and_then(|g| g.get(&id)).copied().unwrap_or(0);
+                        // a branch probe that stays silent while ANOTHER branch probe fires too often in the
+                        // same gap: two flagged bodies that meet at one `end` are lowered as `if f1 {..} else
+                        // {if f2 ..}`, so a stale flag f1 (listed finding) both repeats its own body and
+                        // shadows the other one - one defect, two symptoms; named apart so that a silent
+                        // probe WITHOUT such a neighbour stays a violation
+                        let is_branch_sem = |q: &Probe| q.mode == Mode::SemanticAfter && matches!(em.roles[q.func as usize].get(q.at), Some(Role::Br) | Some(Role::BrIf) | Some(Role::BrTable));
+                        let other_extra = is_branch_sem(p)
+                            && ac.iter().any(|(id2, n2)| *id2 != id && *n2 > e.get(id2).copied().unwrap_or(0) && by_id.get(id2).map(|q| is_branch_sem(q)).unwrap_or(false));
                         let dir = if na < nt {
                             "missing-on-fall-through"
+                        } else if na < ne && other_extra {
+                            "missing-beside-extra-firing-of-another-branch-probe"
                         } else if na < ne {
                             "missing"
                         } else {
